@@ -1,4 +1,5 @@
 import NibabelModel.Basic.PySlice
+import NibabelModel.Generated.C15Consts
 /-! Model/C15 — executable model of `nibabel/streamlines/array_sequence.py` (core Lean only).
 
   A *heap* of row buffers (`_data` ndarrays, identified by the ndarray object), and *sequences*
@@ -25,15 +26,21 @@ abbrev Row := List Int
 /-- one array of the sequence: its rows (first axis) -/
 abbrev Elem := List Row
 
-/-- `MEGABYTE`, array_sequence.py:7 -/
-def MB : Nat := 1024 * 1024
-/-- default `buffer_size=4` (Mb), array_sequence.py:115 — also what `copy()`/`__getitem__` get
-    through `self.__class__()` -/
-def defaultBufBytes : Nat := 4 * MB
+/-- `MEGABYTE`, array_sequence.py:7 — REGENERATED from the source on every run (Generated/C15Consts.lean) -/
+def MB : Nat := Gen.MEGABYTE
+/-- default `buffer_size` (Mb), array_sequence.py:115 — also what `copy()`/`__getitem__` get
+    through `self.__class__()`; regenerated from the source -/
+def defaultBufBytes : Nat := Gen.defaultBufferMb * MB
 
-/-- dtype tags used by the harness: 0=f8 1=i8 2=i4 3=i2 4=f4 5=bool (item sizes checked at import) -/
-def itemsize : Nat → Nat
-  | 0 => 8 | 1 => 8 | 2 => 4 | 3 => 2 | 4 => 4 | 5 => 1 | _ => 8
+/-- dtype tags used by the harness: 0=f8 1=i8 2=i4 3=i2 4=f4 5=bool; item sizes regenerated from NumPy -/
+def itemsize (dt : Nat) : Nat := Gen.itemsizes.getD dt 8
+
+/-- NumPy accepts `arr op= <Python float>` for this dtype tag (else `UFuncTypeError`, a TypeError: the result
+    cannot be cast back 'same_kind'); regenerated from NumPy -/
+def inplaceFloatOK (dt : Nat) : Bool := Gen.inplaceFloatOK.getD dt false
+
+/-- NumPy accepts `arr_t op= arr_v` for these dtype tags; regenerated from NumPy -/
+def inplaceSeqOK (dt dv : Nat) : Bool := (Gen.inplaceSeqOK.getD dt []).getD dv false
 
 /-- one `_data` ndarray -/
 structure Buf where
@@ -267,6 +274,7 @@ inductive Err where
   | index      -- IndexError
   | value      -- ValueError
   | stopIter   -- StopIteration (arithmetic on a sequence without elements)
+  | type       -- TypeError (NumPy refuses an in-place operation whose result cannot be cast back)
   | bad        -- ill-formed operation (unknown sequence id, wrong element sizes): not generated
   deriving Repr, DecidableEq, Inhabited
 
@@ -373,6 +381,7 @@ inductive Op where
   | iopSeq (t v : Nat) (code : Nat)                        -- `s += other` / `*=` / `-=`, other an ArraySequence
   | opSeq (t v : Nat) (code : Nat)                         -- `s + other` / `*` / `-` / `<`
   | unary (t : Nat) (code : Nat)                           -- `-s` / `abs(s)`
+  | iopF (t : Nat) (code : Nat) (k : Int)                  -- `s += 2.0` …: a Python FLOAT scalar (integer-valued)
   deriving Repr, DecidableEq, Inhabited
 
 /-- `s.extend(u)` with `u` an ArraySequence: `len(u)`, `u[0]` and iteration read `u`'s arrays;
@@ -451,7 +460,22 @@ def step (σ : State) : Op → Except Err State
         | none => .error .stopIter
       else .error .bad
   | .iopSeq t v code =>
-      if t < σ.seqs.length ∧ v < σ.seqs.length then iopSeq code σ t v else .error .bad
+      -- `_check_shape` (ValueError) and `next(elements)` (StopIteration) come first; then the first in-place
+      -- ufunc call raises before anything is written when NumPy cannot cast the result back
+      if t < σ.seqs.length ∧ v < σ.seqs.length then
+        match iopSeq code σ t v with
+        | .ok σ' =>
+            if inplaceSeqOK (σ.bufAt (σ.seqAt t).buf).dt (σ.bufAt (σ.seqAt v).buf).dt then .ok σ' else .error .type
+        | .error e => .error e
+      else .error .bad
+  | .iopF t code k =>
+      -- `ndarray.__iadd__(2.0)` works in place (same dtype: `astype(copy=False)` keeps the buffer) or raises
+      -- at the first array, before anything is written
+      if t < σ.seqs.length then
+        match iop (arith code k) σ t with
+        | some σ' => if inplaceFloatOK (σ.bufAt (σ.seqAt t).buf).dt then .ok σ' else .error .type
+        | none => .error .stopIter
+      else .error .bad
   | .opSeq t v code =>
       if t < σ.seqs.length ∧ v < σ.seqs.length then opSeq code σ t v else .error .bad
   | .unary t code =>
